@@ -6,6 +6,7 @@ package PKG
 
 import (
 	"fmt"
+	"math"
 	"strconv"
 	"strings"
 )
@@ -177,3 +178,16 @@ func vEventArgIs(tag string, k int, v interface{}) bool  { return true }
 
 func vWatchCaptured(f interface{}) {}
 func vWatchEnd()                   {}
+
+func vNondetFloat64(label string) float64 {
+	s, ok := vnext(label)
+	if !ok || s == "" {
+		return 0
+	}
+	// the engine prints floating-point models as their IEEE-754 bit pattern (decimal)
+	if bits, err := strconv.ParseUint(s, 10, 64); err == nil {
+		return math.Float64frombits(bits)
+	}
+	f, _ := strconv.ParseFloat(s, 64)
+	return f
+}
